@@ -93,6 +93,14 @@ def gen_ast(rng):
             items += [('pp', cond_), ('data', '.byte', [[str(rng.randrange(1, 100))]]), ('pp', ['#else']),
                       ('data', '.byte', [[str(rng.randrange(100, 200))], ['7']]), ('pp', ['#endif'])]
             continue
+        if r >= 0.955:
+            # layout directives; a label in front of one names the address the line starts on, as on a line of its own
+            if labels and not pending_local and rng.random() < 0.7:
+                nm = labels.pop()
+                items.append(('label', nm))
+                defined.append(nm)
+            items.append(('raw', rng.choice(['.align 4', '.align 8', '.align 3', '.fill 3, $5A', '.zero 2', '.align 16'])))
+            continue
         if r < 0.31:
             # strings and character literals with quote characters, escapes and semicolons inside
             items.append(('raw', rng.choice(['.cstr "it\'s"', '.cstr "say \\"hi\\" twice"', '.byte \'"\'', '.cstr "semi;colon"',
@@ -319,7 +327,7 @@ class C18(core.Check):
     chunk = 900
     required_buckets = {**{'alone:' + k: 3 for k in REWRITES}, 'all-together': 3, 'tab-after-mnemonic': 3,
                         'upper-register-in-brackets': 3, 'upper-register-indexed': 3, 'label-contains-mnemonic': 3,
-                        'joined>=2': 3, 'joined>=3': 3, 'label-in-front-of-local-reference': 3, 'corpus-example': 3, 'preprocessor-lines': 3, 'tab-after-directive-keyword': 3, 'quote-in-comment-after-quoted-statement': 3,
+                        'joined>=2': 3, 'joined>=3': 3, 'label-in-front-of-local-reference': 3, 'label-in-front-of-align': 3, 'label-in-front-of-fill': 3, 'corpus-example': 3, 'preprocessor-lines': 3, 'tab-after-directive-keyword': 3, 'quote-in-comment-after-quoted-statement': 3,
                         'include-line': 3, 'include-line:trailing-comments': 3,
                         'symbol-use-between-two-quoted-characters-on-one-line': 3,
                         'comment-with-a-character-some-tools-take-for-a-line-end': 3}
@@ -426,6 +434,10 @@ class C18(core.Check):
                     t.add('label-contains-mnemonic')
                 if 'label-placement' in ks and re.search(r'^\s*\w+:[ \t]+\S*.*\.(lp|nx)\b', src, re.M):
                     t.add('label-in-front-of-local-reference')
+                if 'label-placement' in ks and re.search(r'^\s*\w+:[ \t]+\.align\b', src, re.M):
+                    t.add('label-in-front-of-align')
+                if 'label-placement' in ks and re.search(r'^\s*\w+:[ \t]+\.(fill|zero)\b', src, re.M):
+                    t.add('label-in-front-of-fill')
                 if re.search(r'^[^;\n]*["\'][^\n]*;[^\n]*["\']', src, re.M) and 'trailing-comments' in ks:
                     t.add('quote-in-comment-after-quoted-statement')
                 if re.search('[\x0b\x0c\x1c-\x1e\x85\u2028\u2029]', src):
